@@ -31,11 +31,13 @@ CLAIMS = {
     'C05.rejects': 'a flow naming an unknown step, or a cyclic flow, is rejected '
                    'with ValueError at construction',
 }
-GOALS = {'quick': ['a chain of 3', 'two steps in one layer', 'nested', 'split'],
+GOALS = {'quick': ['a chain of 3', 'two steps in one layer', 'nested', 'split',
+                   'a flow step also makes a structural update'],
          'thorough': ['a chain of 3', 'two steps in one layer', 'nested',
-                      'split']}
+                      'split', 'a flow step also makes a structural update']}
 STUBS = ['flow steps computing v_j from what they read (set updater that logs '
-         'applications)', 'two legacy derivers (one listed under processes, one '
+         'applications); one of them (symbolic choice, or none) adds a child '
+         'to a glob store in the same update, every phase', 'two legacy derivers (one listed under processes, one '
          'under steps without a flow entry)', 'one process accumulating x with a '
          'symbolic timestep and delta']
 ASSUMPTIONS = ['the DAG dimension is boolean (edge flags decided by forking): '
@@ -83,6 +85,8 @@ class FS(Step):
                                         '_emit': True}}}
         for d in self.parameters['deps']:
             sch['o']['v_' + d] = {'_default': 0, '_updater': log_set}
+        if self.parameters.get('adds'):
+            sch['e'] = {'*': {'q': {'_default': 0}}}
         return sch
 
     def next_update(self, timestep, states):
@@ -90,7 +94,13 @@ class FS(Step):
         val = 1 + self.parameters['c'] * states['s']['x']
         for d in self.parameters['deps']:
             val = val + states['o']['v_' + d]
-        return {'o': {'v_' + self.name: (self.name, val)}}
+        upd = {'o': {'v_' + self.name: (self.name, val)}}
+        if self.parameters.get('adds'):
+            # the same update also changes the structure of the hierarchy
+            CTX['added'] = CTX.get('added', 0) + 1
+            upd['e'] = {'_add': [{'key': 'k%d' % CTX['added'],
+                                  'state': {'q': 1}}]}
+        return upd
 
 
 class Emit:
@@ -164,15 +174,22 @@ def body(ctx, cfg):
     d = ctx.int('d', -3, 3)
     LOG.clear()
     CTX['applies'] = 0
+    CTX['added'] = 0
+    adder = ctx.choice('adder', S + 1)     # S: no step adds
+    if adder < S:
+        ctx.goal('a flow step also makes a structural update')
     processes, steps, flow, topology = {}, {}, {}, {}
     up = ('..',) * len(base)
     for n in decl:
-        st = FS({'name': n, 'deps': deps[n], 'c': names.index(n) + 1})
+        st = FS({'name': n, 'deps': deps[n], 'c': names.index(n) + 1,
+                 'adds': names.index(n) == adder})
         merge(steps, nest({n: st}, home[n]))
         merge(flow, nest({n: [rel(home[n], home[dd], dd) for dd in deps[n]]},
                          home[n]))
         hup = ('..',) * len(home[n])
-        merge(topology, nest({n: {'s': hup + ('s',), 'o': hup + ('o',)}},
+        merge(topology, nest({n: dict({'s': hup + ('s',), 'o': hup + ('o',)},
+                                      **({'e': hup + ('e',)}
+                                         if names.index(n) == adder else {}))},
                              home[n]))
     # legacy derivers: one under processes, one under steps without flow
     der_a = FS({'name': 'der_a', 'deps': [], 'c': 7})
